@@ -28,6 +28,28 @@ char *MN(strtok_r)(char *s, const char *delim, char **save) {
   return tok;
 }
 
+#ifdef LIBC_SAFETY_ABSTRACTION
+/* Safety-level abstractions (sound over-approximations for memory-safety proofs):
+ *  strstr: exact when the needle matches at the start (the only use: strstr(p, kw) == p),
+ *          otherwise NULL or ANY later position inside the haystack;
+ *  strtoul: reads the string up to its terminator and returns ANY value. */
+char *strstr(const char *h, const char *n) {
+  size_t j = 0;
+  while (n[j] != '\0' && h[j] == n[j]) j++;
+  if (n[j] == '\0') return (char *)h;
+  size_t len = 0; while (h[len] != '\0') len++;
+  size_t k; _Bool none;
+  if (none || len < 2) return NULL;
+  __CPROVER_assume(k >= 1 && k < len);
+  return (char *)(h + k);
+}
+unsigned long strtoul(const char *s, char **end, int base) {
+  size_t i = 0; while (s[i] != '\0') i++;
+  unsigned long v; return v;
+}
+#define LIBC_NO_EXACT_STRSTR 1
+#endif
+#ifndef LIBC_NO_EXACT_STRSTR
 char *MN(strstr)(const char *h, const char *n) {
   if (n[0] == '\0') return (char *)h;
   for (size_t i = 0; h[i] != '\0'; i++) {
@@ -38,6 +60,7 @@ char *MN(strstr)(const char *h, const char *n) {
   }
   return NULL;
 }
+#endif
 
 #ifdef LIBC_MODEL_STRTOUL
 /* strtoul for the bases the library uses (10, 16), no locale, optional sign, optional 0x for 16,
